@@ -103,12 +103,14 @@ func (m *model) applyFetch(r rec) *assignment {
 // notice records a reorg / indices-change notice. Which assignments it entitles the handler to
 // drop follows the handlers' documented contract (the comments on HandleDuties) and what the
 // dependent roots mean:
-//   attester  reorg-previous: the epoch of the notice and later ones; reorg-current: later epochs
-//             only (the current epoch's attester duties depend on the previous root)
-//   proposer  reorg-current: the epoch of the notice (and later); reorg-previous: nothing
-//   sync      reorg-current: later periods only; reorg-previous: nothing
-//   all       indices-change: later epochs/periods at once; the current one only after the next
-//             tick has executed from it ("1. execute 2. reset 3. fetch")
+//
+//	attester  reorg-previous: the epoch of the notice and later ones; reorg-current: later epochs
+//	          only (the current epoch's attester duties depend on the previous root)
+//	proposer  reorg-current: the epoch of the notice (and later); reorg-previous: nothing
+//	sync      reorg-current: later periods only; reorg-previous: nothing
+//	all       indices-change: later epochs/periods at once; the current one only after the next
+//	          tick has executed from it ("1. execute 2. reset 3. fetch")
+//
 // slot is the slot the notice carries (= the clock).
 func (m *model) notice(e byte, slot int) {
 	cur := m.kind.unitOfSlot(slot)
